@@ -981,6 +981,49 @@ class Engine:
                 return [(st, ('const', int(k[1] == want)))]
             return [(st, ('isv', v, want, POLL))]
 
+        # ---- mem::replace / mem::take on Option slots behave like Option::replace / take
+        if path in ('std::mem::replace', 'std::mem::take') and args and args[0][0] == 'ref':
+            loc = self.deref(args[0])
+            old = self.read(st, loc)
+            if path == 'std::mem::take':
+                if not t.get('dest_ty', '').startswith('std::option::Option'):
+                    return None
+                new = NONE
+            else:
+                new = args[1]
+            if new == NONE:
+                ev('take', loc=loc, old=old)
+            else:
+                ev('replace', loc=loc, old=old, val=new)
+            self._write_ev(st, fn, frame, loc, new, t['ln'])
+            return [(st, old)]
+
+        # ---- the `?` operator on Option / Result
+        if name == 'branch' and 'ops::Try' in (ci.get('trait') or '') + path:
+            v = args[0]
+            CF = 'std::ops::ControlFlow'
+            outs = []
+            if v[0] == 'agg' and v[1] == OPTION:
+                if v[2] == 'Some':
+                    return [(st, ('agg', CF, 'Continue', (('0', v[3][0][1]),)))]
+                return [(st, ('agg', CF, 'Break', (('0', NONE),)))]
+            if v[0] == 'agg' and v[1] == RESULT:
+                if v[2] == 'Ok':
+                    return [(st, ('agg', CF, 'Continue', (('0', v[3][0][1]),)))]
+                return [(st, ('agg', CF, 'Break', (('0', v),)))]
+            if 'Option' in (ci.get('gargs_str') or '') or 'Option' in path:
+                for st2, inner in self._opt_split(st, v):
+                    if inner is None:
+                        outs.append((st2, ('agg', CF, 'Break', (('0', NONE),))))
+                    else:
+                        outs.append((st2, ('agg', CF, 'Continue', (('0', inner),))))
+                return outs
+            return None
+        if name == 'from_residual' and 'FromResidual' in (ci.get('trait') or '') + path:
+            if args and (args[0] == NONE or 'Option' in path):
+                return [(st, NONE)]
+            return None
+
         # ---- wakers
         if path.startswith('std::task::Context') and name == 'waker':
             return [(st, ('ref', (('cxwaker',),)))]
